@@ -2,12 +2,7 @@
 
 
 def classify(case):
-    """the recorded finding: the installed desktop file NAME is copied unquoted into Exec=env BAMF_DESKTOP_FILE_HINT=<name> ...;
-    only names containing a space, tab or line break are keyed."""
-    i = case.get("input") or {}
-    f = i.get("file") or ""
-    if " " in f or "\t" in f or "\n" in f:
-        return "desktop-file-name-with-whitespace"
+    """no recorded finding: the unquoted desktop file name was repaired in /repo (0f3f7c0); a recurrence is a VIOLATION."""
     return None
 
 
@@ -27,9 +22,10 @@ SPEC = dict(
           "forms (own app with/without arguments, other commands, prefixes of the app command, instance-key forms, control "
           "bytes), Icon= forms (${SNAP} paths with .. / . / empty segments, absolute paths, snap.<name>. theme names of this "
           "and other snaps), ${SNAP} occurrences, random bytes incl. NUL and invalid UTF-8, long lines; LF, CRLF, blank and "
-          "missing final line ends; 7 snaps (with and without instance key, app named like the snap, no apps) x 15 desktop "
-          "file names (ordinary, no extension, dots, spaces, tab, =, ${SNAP}); the real sanitizeDesktopFile is called with "
-          "the installed name computed as deriveDesktopFilesContent does. Non-trivial = non-empty output."),
+          "missing final line ends; 7 snaps (with and without instance key, app named like the snap, no apps) x 36 desktop "
+          "file names (ordinary, no extension, dots, spaces, tab, line break, quotes, backslash, %, $, backquote, ${SNAP}, "
+          "control characters incl. U+0085, invalid UTF-8); each file is written into meta/gui under a scratch root and the "
+          "real deriveDesktopFilesContent (name filter + sanitizeDesktopFile) is run. Non-trivial = non-empty output."),
     exhaustive=dict(quick=False, thorough=False),
     trusted_base=[
         "translators/regexes.go: prints each alternative of isValidDesktopFileLine (parsed with Go's regexp/syntax)",
@@ -37,13 +33,15 @@ SPEC = dict(
         "(harness/overlay/wrappers/zz_verif_c27_test.go, in-package, real sanitizeDesktopFile)",
         "Go regexp replaced by the derivative matcher rmatch (proved equal to the denotational semantics) on the same "
         "expressions, byte-wise: all classes in them are ASCII and positive, so rune-wise and byte-wise matching coincide",
-        "bufio.Scanner/ScanLines modelled by split_lines + drop_cr; filepath.Base/Ext/Clean by hand models on slash/dot "
-        "splits; how a desktop environment launches Exec= is modelled as word splitting at spaces followed by env(1) "
-        "skipping NAME=VALUE words (quoting rules of the Desktop Entry spec are not modelled)",
+        "bufio.Scanner/ScanLines modelled by split_lines + drop_cr; filepath.Base/Ext/Clean/Glob(*.desktop) and "
+        "unicode.IsControl by hand models; how a desktop environment launches Exec= is modelled per the Desktop Entry "
+        "spec: arguments split at spaces, a double-quoted argument is one word with backslash escapes, %% is a literal "
+        "percent, then env(1) skips NAME=VALUE words",
     ],
     assumptions=[
         "bufio.Scanner's 64 KiB token limit is not modelled (a longer line makes the real sanitizer stop silently); generated lines stay below it",
         "app names contain no slash (snap.ValidateApp guarantees it), so filepath.Base(wrapper) is the joined snap.app name",
-        "GUARD of the launch theorem: the installed desktop file name contains no space (finding: it may, see KNOWN_FINDINGS)",
+        "GUARDS of the launch theorem are on paths snapd builds from validated names only: wrapper paths without space, =, $, "
+        "double quote, %; mount directory non-empty and without double quote, backslash, $. No guard on the desktop file name.",
     ],
 )
